@@ -404,7 +404,7 @@ def run(ctx):
     # ------------------------------------------------------------------ inputs x options
     wit = sorted(os.path.join(WITNESS, f) for f in os.listdir(WITNESS) if f.endswith('.svg'))
     corpus = vlib.corpus_files()
-    ngen = 200 if quick else 2500
+    ngen = 200 if quick else 1500
     gen_docs = [refgen.gen_ref_doc(rng, id_style=['plain', 'genlike', 'weird'][i % 3], big=(i % 5 == 0)) for i in range(ngen)]
     # hand-made inputs for the known classes and the fixed defects
     extra = [
@@ -419,7 +419,7 @@ def run(ctx):
     # witnesses of the defects fixed for this property family must pass outright
     strict = set(k for k, f in enumerate(wit) if os.path.basename(f) in ('F08.svg', 'F09.svg', 'F13.svg'))
     nwit = len(wit)
-    per_doc = 2 if quick else 6
+    per_doc = 2 if quick else 4
     esc_variants = ['é-ü_', 'q"\'', 'a&<', 'p q', 'x)']
     cases = []
     for k, d in enumerate(docs):
@@ -433,100 +433,114 @@ def run(ctx):
                 w['prefix'] = [None, 'pre-', 'é-ü_'][(k + j) % 3]
                 w['cp'] = [13, 255, 8, 100][(k + j) % 4]
             cases.append((k, w))
-    outs = ctx.rvh_batch(binp, 'c07-write', ["-\t%s\t%s" % (wopts_str(w), docs[k]) for k, w in cases])
-
-    # ------------------------------------------------------------------ S: closure / numbers / re-parse oracle
     hist = dict(written=0, rejected=0, with_refs=0, pt=0, prefix=dict(none=0, ascii=0, esc=0), precision_gt12=0)
-    results = []
     nviol = 0
     klass_hits = {}
-    for (k, w), o in zip(cases, outs):
-        r = jload(o)
-        results.append(r)
-        lab = "%s [%s]" % (labels[k], wopts_str(w))
-        if 'crash' in r or 'panic' in r:
-            if nviol < 8:
-                ctx.violation("writing crashed: %s: %s" % (lab, str({x: r[x] for x in r if x != 'dump'})[:300]),
-                              dict(doc=docs[k], wopts=wopts_str(w), op='c07-write', result={x: r[x] for x in r if x != 'dump'}))
-            nviol += 1
-            continue
-        if 'dump' not in r:
-            hist['rejected'] += 1
-            ctx.note_case('rej/' + lab, nontrivial=False)
-            continue
-        hist['written'] += 1
-        hist['pt'] += 1 if w['pt'] else 0
-        pk = 'none' if not w['prefix'] else ('ascii' if w['prefix'] == 'pre-' else 'esc')
-        hist['prefix'][pk] += 1
-        hist['precision_gt12'] += 1 if (w['cp'] > 12 or w['tp'] > 12) else 0
-        nrefs = 0
-        if r.get('skeleton'):
-            cnt = [0]
+    ncorr = 0
+    model_ok = True
+    nbad_skel = 0
+    search_pool = []          # (case, dump) kept for the model-level search when a proof broke
+    all_cases = cases
+    BATCH = 2400              # results carry full dumps: processed in batches to bound memory
+    for b0 in range(0, len(all_cases), BATCH):
+        cases = all_cases[b0:b0 + BATCH]
+        outs = ctx.rvh_batch(binp, 'c07-write', ["-\t%s\t%s" % (wopts_str(w), docs[k]) for k, w in cases])
 
-            def cref(e, parent):
-                at = e[1]
-                cnt[0] += sum(1 for a in ('clip-path', 'mask', 'fill', 'stroke', 'filter') if a in at and at[a].startswith('url('))
-                cnt[0] += 1 if at.get('xlink:href', '').startswith('#') else 0
-            sk_walk(r['skeleton'], cref)
-            nrefs = cnt[0]
-        hist['with_refs'] += 1 if nrefs else 0
-        ctx.note_case("%s|%s" % (labels[k] if docs[k].startswith('@') else docs[k], wopts_str(w)), nontrivial=nrefs > 0)
-        for cls, text in classify(r, w):
-            full = "%s: %s" % (lab, text)
-            rep = dict(doc=docs[k], wopts=wopts_str(w), op='c07-write', problem=text, klass=cls)
-            if cls is None or k in strict:
+        # ------------------------------------------------------------------ S: closure / numbers / re-parse oracle
+        results = []
+        for (k, w), o in zip(cases, outs):
+            r = jload(o)
+            results.append(r)
+            lab = "%s [%s]" % (labels[k], wopts_str(w))
+            if 'crash' in r or 'panic' in r:
                 if nviol < 8:
-                    ctx.violation(full, rep)
+                    ctx.violation("writing crashed: %s: %s" % (lab, str({x: r[x] for x in r if x != 'dump'})[:300]),
+                                  dict(doc=docs[k], wopts=wopts_str(w), op='c07-write', result={x: r[x] for x in r if x != 'dump'}))
                 nviol += 1
-            else:
-                klass_hits[cls] = klass_hits.get(cls, 0) + 1
-                ctx.known_or_violation(cls, full, rep)
+                continue
+            if 'dump' not in r:
+                hist['rejected'] += 1
+                ctx.note_case('rej/' + lab, nontrivial=False)
+                continue
+            hist['written'] += 1
+            hist['pt'] += 1 if w['pt'] else 0
+            pk = 'none' if not w['prefix'] else ('ascii' if w['prefix'] == 'pre-' else 'esc')
+            hist['prefix'][pk] += 1
+            hist['precision_gt12'] += 1 if (w['cp'] > 12 or w['tp'] > 12) else 0
+            nrefs = 0
+            if r.get('skeleton'):
+                cnt = [0]
+
+                def cref(e, parent):
+                    at = e[1]
+                    cnt[0] += sum(1 for a in ('clip-path', 'mask', 'fill', 'stroke', 'filter') if a in at and at[a].startswith('url('))
+                    cnt[0] += 1 if at.get('xlink:href', '').startswith('#') else 0
+                sk_walk(r['skeleton'], cref)
+                nrefs = cnt[0]
+            hist['with_refs'] += 1 if nrefs else 0
+            ctx.note_case("%s|%s" % (labels[k] if docs[k].startswith('@') else docs[k], wopts_str(w)), nontrivial=nrefs > 0)
+            for cls, text in classify(r, w):
+                full = "%s: %s" % (lab, text)
+                rep = dict(doc=docs[k], wopts=wopts_str(w), op='c07-write', problem=text, klass=cls)
+                if cls is None or k in strict:
+                    if nviol < 8:
+                        ctx.violation(full, rep)
+                    nviol += 1
+                else:
+                    klass_hits[cls] = klass_hits.get(cls, 0) + 1
+                    ctx.known_or_violation(cls, full, rep)
+
+        # ------------------------------------------------------------------ K: writer-skeleton (in Coq)
+        items = []
+        imap = []
+        for ci, ((k, w), r) in enumerate(zip(cases, results)):
+            if not r.get('skeleton'):
+                continue
+            it = treeref.Intern()
+            ct = treeref.CoqTree(it)
+            tree = ct.tree(r['dump'])
+            sk = CoqSkel(it, w['prefix'])
+            x = sk.elem(r['skeleton'], root=True, xlink=r['xlink_declared'])
+            items.append("(%d, %s, %s, (%s))" % (sk.ptok, 'true' if w['pt'] else 'false', tree, x))
+            imap.append(ci)
+        chunks = 8
+        bad = []
+        import concurrent.futures as cf
+
+        def eval_chunk(c):
+            idx = list(range(c, len(items), chunks))
+            body = (PRELUDE + "Definition case_ok (c : N * bool * tree * xout) : bool :=\n"
+                    "  match c with (p, pt, t, x) => xout_eqb (write {| w_prefix := p; w_preserve_text := pt |} t) x end.\n"
+                    "Definition cases : list (N * bool * tree * xout) := [\n%s\n].\n"
+                    "Eval vm_compute in (bad_indices case_ok cases).\n" % ";\n".join(items[j] for j in idx))
+            rc, out = ctx.coq_eval('k_skel_%d' % c, body, ['Model.Tree', 'Model.Writer', 'Model.Corr'], timeout=1200)
+            return idx, (ctx.parse_N_list(out) if rc == 0 else None), out
+
+        with cf.ThreadPoolExecutor(max_workers=chunks) as ex:
+            for idx, bl, out in ex.map(eval_chunk, range(chunks)):
+                if bl is None:
+                    model_ok = False
+                    ctx.log("model evaluation (writer-skeleton) failed:\n" + out[-1500:])
+                else:
+                    bad += [imap[idx[b]] for b in bl]
+        ncorr += len(items)
+        if not proof_ok and len(search_pool) < 600:
+            search_pool += [(cases[ci], results[ci]) for ci in imap[:600 - len(search_pool)]]
+        for ci in sorted(bad)[:max(0, 4 - nbad_skel)]:
+            k, w = cases[ci]
+            ctx.violation("%s [%s]: the element / id / reference skeleton of the real output differs from Model/Writer.v `write` on the same tree"
+                          % (labels[k], wopts_str(w)),
+                          dict(doc=docs[k], wopts=wopts_str(w), op='c07-write', skeleton=results[ci].get('skeleton')))
+            nbad_skel += 1
+        del results, outs, items
+    cases = all_cases
     ctx.cov['oracle_cases'] = hist
     ctx.cov['known_class_hits'] = klass_hits
     ctx.cov['e2e_cases'] = hist['written']
-
-    # ------------------------------------------------------------------ K: writer-skeleton (in Coq)
-    items = []
-    imap = []
-    for ci, ((k, w), r) in enumerate(zip(cases, results)):
-        if not r.get('skeleton'):
-            continue
-        it = treeref.Intern()
-        ct = treeref.CoqTree(it)
-        tree = ct.tree(r['dump'])
-        sk = CoqSkel(it, w['prefix'])
-        x = sk.elem(r['skeleton'], root=True, xlink=r['xlink_declared'])
-        items.append("(%d, %s, %s, (%s))" % (sk.ptok, 'true' if w['pt'] else 'false', tree, x))
-        imap.append(ci)
-    chunks = 8
-    bad = []
-    model_ok = True
-    import concurrent.futures as cf
-
-    def eval_chunk(c):
-        idx = list(range(c, len(items), chunks))
-        body = (PRELUDE + "Definition case_ok (c : N * bool * tree * xout) : bool :=\n"
-                "  match c with (p, pt, t, x) => xout_eqb (write {| w_prefix := p; w_preserve_text := pt |} t) x end.\n"
-                "Definition cases : list (N * bool * tree * xout) := [\n%s\n].\n"
-                "Eval vm_compute in (bad_indices case_ok cases).\n" % ";\n".join(items[j] for j in idx))
-        rc, out = ctx.coq_eval('k_skel_%d' % c, body, ['Model.Tree', 'Model.Writer', 'Model.Corr'], timeout=1200)
-        return idx, (ctx.parse_N_list(out) if rc == 0 else None), out
-
-    with cf.ThreadPoolExecutor(max_workers=chunks) as ex:
-        for idx, bl, out in ex.map(eval_chunk, range(chunks)):
-            if bl is None:
-                model_ok = False
-                ctx.log("model evaluation (writer-skeleton) failed:\n" + out[-1500:])
-            else:
-                bad += [imap[idx[b]] for b in bl]
-    ctx.cov['correspondence_cases'] = len(items)
-    for ci in sorted(bad)[:4]:
-        k, w = cases[ci]
-        ctx.violation("%s [%s]: the element / id / reference skeleton of the real output differs from Model/Writer.v `write` on the same tree"
-                      % (labels[k], wopts_str(w)),
-                      dict(doc=docs[k], wopts=wopts_str(w), op='c07-write', skeleton=results[ci].get('skeleton')))
+    ctx.cov['correspondence_cases'] = ncorr
     if not model_ok:
         ctx.violation("the writer-skeleton correspondence could not be evaluated", dict(op='writer-skeleton'), found_input=False)
+
 
     # ------------------------------------------------------------------ K: write-num
     nn = 400 if quick else 4000
@@ -580,7 +594,7 @@ def run(ctx):
         found = False
         its = []
         smap = []
-        for ci, ((k, w), r) in enumerate(zip(cases, results)):
+        for ci, ((k, w), r) in enumerate(search_pool):
             if r.get('skeleton') and len(its) < 600:
                 it = treeref.Intern()
                 ct = treeref.CoqTree(it)
@@ -592,8 +606,8 @@ def run(ctx):
         rc, out = ctx.coq_eval('search_closed', body, ['Model.Tree', 'Model.Writer', 'Model.Corr'], timeout=900)
         bl = ctx.parse_N_list(out) if rc == 0 else None
         for b in bl or []:
-            k, w = cases[smap[b]]
-            probs = classify(results[smap[b]], w)
+            (k, w), rr = search_pool[smap[b]]
+            probs = classify(rr, w)
             if all(c is not None for c, _ in probs) and probs:
                 continue            # the model reproduces a known class on this input
             ctx.violation("model counterexample: Model/Writer.v writes a reference that is not defined exactly once for %s [%s]"
